@@ -52,14 +52,14 @@ fn replay_value(v: &Value) -> Vec<Violation> {
 fn main() {
     let ctx = Ctx::new("C03", Level::Exploration);
     ctx.maybe_replay(&replay_value);
-    let max_len = ctx.pick(3usize, 4usize);
+    let max_len = ctx.pick(3usize, 6usize);
     let instances = 3usize;
     ctx.set_rule(
         "cases = (registry entry, fitted instance 0..2 with different data seeds / feature counts / hyper-parameters); registry = 28 entries covering every predictor type of the workspace (k-means, GMM, OLS, isotonic, Tweedie, \
          elastic net, multi-task elastic net, PLS regression / canonical / CCA, logistic binary / multinomial, SVM C-bool gaussian, C-bool linear / polynomial, probability, regression \
          linear / gaussian, one-class, decision tree, Gaussian NB, multinomial NB, FTRL, PCA, FastICA, MultiTargetModel, MultiClassModel, Platt over a linear scorer and over an SVM); \
          per case: query pool of 6 rows (2 training rows, a duplicate of the first, an off-data midpoint, an extreme row, a third training row) x EVERY ordered selection \
-         without repetition of 0..=L pool rows (L = 3 quick / 4 thorough: 157 / 517 batches, the duplicate row gives batches with equal rows) x 4 memory layouts (standard, \
+         without repetition of 0..=L pool rows (L = 3 quick: 157 batches; L = 6 thorough: all 1957 arrangements of the pool, a superset of the designed bound 4 = 517 batches; the duplicate row gives batches with equal rows) x 4 memory layouts (standard, \
          column-major, every second row of a larger array, reversed-row) x calling forms {predict(&Array2), predict(Array2), predict(&Dataset), predict(Dataset), predict_inplace \
          into default_target, predict_inplace into a target holding another batch's result, predict(ArrayView2), predict(&ArrayView2), predict(&Dataset<ArrayView2>)} plus the \
          composite oracle and predict_inplace with a too long / too short target (standard layout). evaluation = one call of one form on one (batch, layout); \
